@@ -308,7 +308,6 @@ func deepDepths() []int {
 	return append(d, 44, 48, 56, 63, 64, 65, 80, 100)
 }
 
-
 // pointerOffsetBuffers: label buffers in which a compression pointer refers to a name that starts at offset X, for X
 // around every power of two up to the 14 bits a pointer can hold (and a few in between): filler names up to X, the
 // target name at X, then a name that ends in a pointer to X and a bare pointer to X. STRICT by construction.
@@ -339,7 +338,6 @@ func pointerOffsetBuffers() [][]byte {
 	}
 	return out
 }
-
 
 // labelCumulativeBuffers: many names that are each well within the 255-octet limit but add up far beyond it — ended by
 // a root octet, by a pointer to one shared suffix, or alternating — so that a length counter that survives from one
